@@ -19,8 +19,8 @@ def main(tier):
     for i in range(60 if tier == "quick" else 1500):
         n = rng.choice([2, 2, 3])
         fsp.append({"seed": seed * 100000 + 15000 + i, "qtype": common.QTYPES[i % 7] if i % 3 else "NULL",
-                    "sizes": [rng.choice([1000, 600, 1200, 300, 100, 50, 17, 3, 2, 1, 2047, 4094, 65535]) for _ in range(n)],
-                    "pkt": rng.choice([300, 1200, 1400, 3000]), "ackp": rng.choice([0.0, 0.3, 0.6, 0.9]),
+                    "sizes": [rng.choice([1000, 600, 1200, 300, 100, 50, 17, 3, 2, 1, 2047, 4094, 4095, 4500, 6000, 65535]) for _ in range(n)],
+                    "pkt": rng.choice([300, 1200, 1400, 3000, 5000, 10000]), "ackp": rng.choice([0.0, 0.3, 0.6, 0.9]),
                     "lazy": bool(i % 2), "downenc": rng.choice([None, None, "S", "V"]) if common.QTYPES[i % 7] not in ("NULL", "PRIVATE") and i % 3 else None,
                     "change_at": sorted(rng.sample(range(1, 12), n - 1)), "offer_at": [rng.randrange(5, 30)],
                     "pings": 40, "check_ip": i % 5 != 0, "label": "fragscript%d" % i})
